@@ -15,6 +15,21 @@ TOL = 1e-9          # assumption A-fp: float64 evaluation vs exact arithmetic on
 TOL_DEG = 1e-6      # degenerate neighbourhoods (1 + c down to 1e-8 amplifies rounding by up to 1e8)
 
 
+def leanchecker(ctx, modules):
+    """thorough tier: replay the compiled property modules through the independent kernel re-checker"""
+    import subprocess
+    from harness import common
+    try:
+        r = subprocess.run(["lake", "env", "leanchecker"] + list(modules), cwd=common.LEAN, capture_output=True, text=True, timeout=1500)
+    except subprocess.TimeoutExpired:
+        ctx.proof_result.fail("leanchecker timed out")
+        return
+    if r.returncode != 0:
+        ctx.proof_result.fail("leanchecker rejected the modules: " + (r.stdout + r.stderr).strip()[:300])
+    else:
+        ctx.notes.append("leanchecker replayed " + ", ".join(modules))
+
+
 # ------------------------------------------------------------------------------------------
 # numbers across the driver boundary
 # ------------------------------------------------------------------------------------------
